@@ -212,7 +212,7 @@ func sortedStrs(s []string) []string {
 func c12Run(c *Ctx) {
 	depth, nconn := 6, 2
 	if c.Thorough() {
-		depth, nconn = 8, 3
+		depth, nconn = 7, 3
 	}
 	var flavors []c12Flavor
 	for _, rc := range []string{"on", "off"} {
@@ -278,7 +278,7 @@ func c12Run(c *Ctx) {
 
 func init() {
 	addCheck(&Check{ID: "C12", Level: "model_checking",
-		Rule:   "explicit-state BFS by replay (depth 6 with 2 client connections; thorough depth 8 with 3), all connections from 127.0.0.1 to one listener, two transactions per connection with pairwise distinct branches: events {connection k sends request t, backend answers (k,t) with 180, with 200, with a second 200} in every order, crossed with 40 flavours: received-support on/off x Via sent-by {same for all connections, different, host-table name, unknown name, equal to the true peer port} x rport requested or not x UDP or TCP backends; oracle: every provisional and the first final response is written on the connection that carried its request, on no other, and no connection is dialled; later finals are don't-cares; schedules: see the race tier; non-trivial = history longer than one event",
+		Rule:   "explicit-state BFS by replay (depth 6 with 2 client connections; thorough depth 7 with 3), all connections from 127.0.0.1 to one listener, two transactions per connection with pairwise distinct branches: events {connection k sends request t, backend answers (k,t) with 180, with 200, with a second 200} in every order, crossed with 40 flavours: received-support on/off x Via sent-by {same for all connections, different, host-table name, unknown name, equal to the true peer port} x rport requested or not x UDP or TCP backends; oracle: every provisional and the first final response is written on the connection that carried its request, on no other, and no connection is dialled; later finals are don't-cares; schedules: see the race tier; non-trivial = history longer than one event",
 		Assume: []string{"connections are interchangeable: histories start with connection 0 (symmetry reduction)"},
 		Run:    c12Run,
 		Finalize: func(c *Ctx, m *Result) {
